@@ -194,6 +194,8 @@ def chunked(xs, n):
 def parallel_coq_bad(prop, name, header, ty, chk, cases, shard=400, timeout=900, jobs=12):
     """Shard a long case list over several coqc processes; returns sorted bad indices (global)."""
     from concurrent.futures import ThreadPoolExecutor
+    if not cases:
+        raise CoqError(f"correspondence group {name} has no case: nothing would be compared (generator or driver problem)")
     shards = list(chunked(list(enumerate(cases)), shard))
 
     def work(k):
@@ -419,9 +421,24 @@ def write_replay(prop: str, payload: dict) -> Path:
     return f
 
 
+def repo_provenance() -> dict:
+    """which tree the run looked at: path, HEAD and whether the working tree differs from HEAD"""
+    def git(*a):
+        p = subprocess.run(["git", "-C", str(REPO), *a], capture_output=True, text=True)
+        return p.stdout.strip() if p.returncode == 0 else "?"
+    return {"path": str(REPO), "head": git("rev-parse", "--short", "HEAD"),
+            "dirty": bool(git("status", "--porcelain", "--untracked-files=no"))}
+
+
 def write_evidence(prop: str, tier: str, seed: int, level: str, coverage: dict, assumptions: list[str],
                    wall: float, violations: int):
-    EVID.mkdir(exist_ok=True)
+    global EVID
+    coverage = dict(coverage)
+    coverage["repo"] = repo_provenance()
+    if str(REPO) != "/repo":
+        # a run against another tree (seeded change in a scratch worktree) must never overwrite the evidence of /repo
+        EVID = BUILD / "evidence_other_trees"
+    EVID.mkdir(parents=True, exist_ok=True)
     ev = {
         "property_id": prop, "tier": tier, "seed": seed, "level": level,
         "coverage": _jsonable(coverage), "assumptions": assumptions,
